@@ -14,6 +14,7 @@ NOT decided: losslessness of the conversions, equality of hashes for all byte
 strings (big-integer sign/length arithmetic), the comparison semantics."""
 import re
 import runner
+import inline
 from flow import Flow
 from mir import callee_of, op_const, op_int, op_local, op_place, rv_operands
 from defs import const_ints
@@ -26,6 +27,8 @@ IMPLS = [
     ("compiler::debug::build_table_mut", None, "symbol/relabel table builder"),
 ]
 ABSORB = ("Digest>::update", "Digest::update", "Bytes::concat")
+NO_INLINE = {"compiler::clvm::sha256tree", "compiler::debug::build_table_mut", "classic::clvm_tools::sha256tree::sha256tree",
+             "compiler::clvm::convert_to_clvm_rs", "compiler::clvm::convert_from_clvm_rs", "compiler::clvm::run", "compiler::clvm::run_step"}
 
 
 def dom_sorted(f, blocks):
@@ -71,9 +74,14 @@ def child_rank(f, fl, arg_op):
 
 def frame_of(prog, path, atom_helper):
     """Return (pair_frame, atom_frame, problems).  Frames are lists like [2, 'first', 'rest'] / [1, 'bytes']."""
-    f = prog.fn(path)
-    if f is None:
+    f0 = prog.fn(path)
+    if f0 is None:
         return None, None, ["function %s not found" % path]
+    # same-module helpers (atom/pair hashing split out into functions) are inlined, so that extracting or folding back a
+    # helper does not change the recovered frames
+    f = inline.inlined(prog, f0, pred=lambda g: g.parent == f0.parent and g.kind in ("Fn", "AssocFn") and len(g.blocks) <= 250
+                       and g.path not in NO_INLINE, depth=2)
+    atom_helper = None
     fl = Flow(f)
     problems = []
     recs = [(bb, t) for bb, t in f.calls() if callee_of(t) == path]
@@ -188,7 +196,10 @@ def classify_bytes(g, gfl, l, allow_empty_const=False):
         return "bytes"
     if not other and not from_store and ints and len(set(ints)) == 1:
         return ints[0]
-    if not other and not from_store and allow_empty_const and not ints:
+    consts = []
+    for x in src:
+        consts.extend(gfl.consts.get(x, []))
+    if not other and not from_store and not ints and any("[u8; 0]" in c.get("ty", "") for c in consts):
         return "bytes"      # the empty atom: &[]
     return "computed:" + ",".join(c.rsplit("::", 1)[-1] for c in other) if other else "?"
 
